@@ -230,8 +230,9 @@ impl ProgressDrawTarget {
         }
     }
 
-    pub(crate) fn adjust_last_line_count(&mut self, adjust: LineAdjust) {
-        self.kind.adjust_last_line_count(adjust);
+    /// Returns the number of lines the adjustment actually accounts for
+    pub(crate) fn adjust_last_line_count(&mut self, adjust: LineAdjust) -> VisualLines {
+        self.kind.adjust_last_line_count(adjust)
     }
 }
 
@@ -258,7 +259,7 @@ enum TargetKind {
 
 impl TargetKind {
     /// Adjust `last_line_count` such that the next draw operation keeps/clears additional lines
-    fn adjust_last_line_count(&mut self, adjust: LineAdjust) {
+    fn adjust_last_line_count(&mut self, adjust: LineAdjust) -> VisualLines {
         let last_line_count = match self {
             Self::Term {
                 last_line_count, ..
@@ -266,12 +267,20 @@ impl TargetKind {
             Self::TermLike {
                 last_line_count, ..
             } => last_line_count,
-            _ => return,
+            _ => return VisualLines::default(),
         };
 
         match adjust {
-            LineAdjust::Clear(count) => *last_line_count = last_line_count.saturating_add(count),
-            LineAdjust::Keep(count) => *last_line_count = last_line_count.saturating_sub(count),
+            LineAdjust::Clear(count) => {
+                *last_line_count = last_line_count.saturating_add(count);
+                count
+            }
+            LineAdjust::Keep(count) => {
+                // Only lines that are on the screen can be kept there
+                let kept = Ord::min(*last_line_count, count);
+                *last_line_count = last_line_count.saturating_sub(kept);
+                kept
+            }
         }
     }
 }
